@@ -1,6 +1,8 @@
 package main
 
 import (
+	"crypto/sha256"
+	"encoding/hex"
 	"fmt"
 	"math/rand"
 	"os"
@@ -154,7 +156,13 @@ func c04Run(w *workspace, outIdx int, variant int, named bool) (snap string, err
 			v, _ := d.GetValue(k).(string)
 			return v
 		}
-		return "", "conf:" + errCode(err) + ":" + get(xerrors.KeyBookName) + ":" + get(xerrors.KeySheetName) + ":" + get(xerrors.KeyDataCellPos) + ":" + get(xerrors.KeyDataCell)
+		// the whole rendered error, every field of it (field options, column, type … included): one defect, one text
+		text := strings.ReplaceAll(strings.ReplaceAll(err.Error()+"\n"+d.String(), outConf, "<CONF>"), outProto, "<PROTO>")
+		sum := sha256.Sum256([]byte(text))
+		if os.Getenv("VERIF_DEBUG") != "" {
+			println("ERRTEXT", text)
+		}
+		return "", "conf:" + errCode(err) + ":" + get(xerrors.KeyBookName) + ":" + get(xerrors.KeySheetName) + ":" + get(xerrors.KeyDataCellPos) + ":" + get(xerrors.KeyDataCell) + ":text=" + hex.EncodeToString(sum[:6])
 	}
 	sp, sc := snapshot(outProto), snapshot(outConf)
 	return snapString(sp) + "|" + snapString(sc), ""
